@@ -123,8 +123,12 @@ def run(task):
             maxw = -(-m // n) + 1
             plan = [("best", None, "cbc"), ("soft", None, "cbc")] + [("fast", w, "cbc") for w in range(1, min(maxw, 2) + 1)]
             plan += [("best", None, "glpk_noimport"), ("soft", None, "glpk_error"), ("fast", 1, "glpk_noimport")]
-            for kind, window, backend in plan:
-                obs = A.eval_case(spec, recipe, backend if A.cbc_available() else "glpk_noimport", kind, window)
+            plan = [(k_, w_, b_, None) for k_, w_, b_ in plan]
+            hk = len(res["state_set"])
+            plan += [("best", None, "cbc", {"recipe": recipe, "how": A.WARM_KINDS[hk % len(A.WARM_KINDS)]}),
+                     ("soft", None, "cbc", {"recipe": recipe, "how": A.WARM_KINDS[(hk + 3) % len(A.WARM_KINDS)]})]
+            for kind, window, backend, warm in plan:
+                obs = A.eval_case(spec, recipe, backend if A.cbc_available() else "glpk_noimport", kind, window, warm=warm)
                 res["evaluations"] += 1
                 res["transitions"] += 1
                 if not obs["ok"]:
@@ -138,7 +142,7 @@ def run(task):
                             "sequence": [pc["case"], A.case_dict(spec, recipe, "cbc", kind, window)]})
                 uds, tot = definition(obs["nts"], recipe, m, n)
                 case = {"spec": spec, "recipe": recipe, "point": f"library {kind} w={window}", "nts": obs["nts"],
-                        "backend": backend}
+                        "backend": backend, "warm": warm}
                 if not close(obs["disorder"], tot):
                     report(f"disorder carried by the {kind} alignment: {obs['disorder']} but its units give {tot}", case)
                 elif any(x is None or not close(x, y) for x, y in zip(obs["uds"], uds)):
@@ -235,7 +239,7 @@ def replay(case):
     elif case["point"].startswith("library"):
         _, kind, w = case["point"].split(" ")
         window = None if w == "w=None" else int(w[2:])
-        obs = A.eval_case(spec, recipe, case.get("backend", "cbc"), kind, window)
+        obs = A.eval_case(spec, recipe, case.get("backend", "cbc"), kind, window, warm=case.get("warm"))
         if obs["ok"]:
             uds, tot = definition(obs["nts"], recipe, m, n)
             if not close(obs["disorder"], tot) or any(x is None or not close(x, y) for x, y in zip(obs["uds"], uds)):
